@@ -145,6 +145,51 @@ pub struct RealEnum {
     /// Debug string of the parsed value, e.g. `Abort(Abort { error: 108 })`
     pub parse: fn(&[u8]) -> Result<String, ZVTError>,
     pub parse_quiet: fn(&[u8]) -> Result<(), ZVTError>,
+    /// reads `n` packets through the real transport from a scripted stream (chunking decided by
+    /// the explorer); per packet Some(Ok(debug)) / Some(Err) / None when the reader blocked, and
+    /// the stream offset after each read
+    pub read: fn(crate::sim::Sh, &[u8], usize) -> Vec<(Option<Result<String, String>>, usize)>,
+}
+
+fn read_with<E: ZvtParser + Send>(sh: crate::sim::Sh, stream: &[u8], n: usize, show: fn(E) -> String) -> Vec<(Option<Result<String, String>>, usize)> {
+    use crate::sim::*;
+    let s = Scripted::new(sh, stream.to_vec(), Chunking::Deviations);
+    let mut tr = io::PacketTransport { source: s.clone() };
+    let mut out = vec![];
+    for _ in 0..n {
+        let r = vcore::report::guarded(|| {
+            let mut fut = Box::pin(tr.read_packet::<E>());
+            match drive(fut.as_mut()) {
+                Driven::Done(Ok(p)) => Some(Ok(show(p))),
+                Driven::Done(Err(e)) => Some(Err(format!("{e:?}"))),
+                Driven::Blocked => None,
+            }
+        });
+        match r {
+            Ok(x) => {
+                let stop = !matches!(x, Some(Ok(_)));
+                out.push((x, s.consumed()));
+                if stop {
+                    break;
+                }
+            }
+            Err(p) => {
+                out.push((Some(Err(format!("PANIC: {p}"))), s.consumed()));
+                break;
+            }
+        }
+    }
+    out
+}
+
+fn read_dbg<E: ZvtParser + Debug + Send>(sh: crate::sim::Sh, stream: &[u8], n: usize) -> Vec<(Option<Result<String, String>>, usize)> {
+    read_with::<E>(sh, stream, n, |p| format!("{p:?}"))
+}
+
+fn read_ack(sh: crate::sim::Sh, stream: &[u8], n: usize) -> Vec<(Option<Result<String, String>>, usize)> {
+    read_with::<io::Ack>(sh, stream, n, |p| match p {
+        io::Ack::Ack(a) => format!("Ack({a:?})"),
+    })
 }
 
 fn parse_q<E: ZvtParser>(b: &[u8]) -> Result<(), ZVTError> {
@@ -163,23 +208,23 @@ fn parse_ack(b: &[u8]) -> Result<String, ZVTError> {
 
 pub fn enums() -> Vec<RealEnum> {
     vec![
-        RealEnum { key: "Ack", parse: parse_ack, parse_quiet: parse_q::<io::Ack> },
-        RealEnum { key: "RegistrationResponse", parse: parse_dbg::<sequences::RegistrationResponse>, parse_quiet: parse_q::<sequences::RegistrationResponse> },
-        RealEnum { key: "ReadCardResponse", parse: parse_dbg::<sequences::ReadCardResponse>, parse_quiet: parse_q::<sequences::ReadCardResponse> },
-        RealEnum { key: "InitializationResponse", parse: parse_dbg::<sequences::InitializationResponse>, parse_quiet: parse_q::<sequences::InitializationResponse> },
-        RealEnum { key: "SetTerminalIdResponse", parse: parse_dbg::<sequences::SetTerminalIdResponse>, parse_quiet: parse_q::<sequences::SetTerminalIdResponse> },
-        RealEnum { key: "ResetTerminalResponse", parse: parse_dbg::<sequences::ResetTerminalResponse>, parse_quiet: parse_q::<sequences::ResetTerminalResponse> },
-        RealEnum { key: "DiagnosisResponse", parse: parse_dbg::<sequences::DiagnosisResponse>, parse_quiet: parse_q::<sequences::DiagnosisResponse> },
-        RealEnum { key: "EndOfDayResponse", parse: parse_dbg::<sequences::EndOfDayResponse>, parse_quiet: parse_q::<sequences::EndOfDayResponse> },
-        RealEnum { key: "AuthorizationResponse", parse: parse_dbg::<sequences::AuthorizationResponse>, parse_quiet: parse_q::<sequences::AuthorizationResponse> },
-        RealEnum { key: "PartialReversalResponse", parse: parse_dbg::<sequences::PartialReversalResponse>, parse_quiet: parse_q::<sequences::PartialReversalResponse> },
-        RealEnum { key: "PrintSystemConfigurationResponse", parse: parse_dbg::<sequences::PrintSystemConfigurationResponse>, parse_quiet: parse_q::<sequences::PrintSystemConfigurationResponse> },
-        RealEnum { key: "SelectLanguageResponse", parse: parse_dbg::<sequences::SelectLanguageResponse>, parse_quiet: parse_q::<sequences::SelectLanguageResponse> },
-        RealEnum { key: "StatusEnquiryResponse", parse: parse_dbg::<sequences::StatusEnquiryResponse>, parse_quiet: parse_q::<sequences::StatusEnquiryResponse> },
-        RealEnum { key: "GetSystemInfoResponse", parse: parse_dbg::<feig::sequences::GetSystemInfoResponse>, parse_quiet: parse_q::<feig::sequences::GetSystemInfoResponse> },
-        RealEnum { key: "WriteFileResponse", parse: parse_dbg::<feig::sequences::WriteFileResponse>, parse_quiet: parse_q::<feig::sequences::WriteFileResponse> },
-        RealEnum { key: "FactoryResetResponse", parse: parse_dbg::<feig::sequences::FactoryResetResponse>, parse_quiet: parse_q::<feig::sequences::FactoryResetResponse> },
-        RealEnum { key: "ChangeHostConfigurationResponse", parse: parse_dbg::<feig::sequences::ChangeHostConfigurationResponse>, parse_quiet: parse_q::<feig::sequences::ChangeHostConfigurationResponse> },
+        RealEnum { key: "Ack", parse: parse_ack, parse_quiet: parse_q::<io::Ack>, read: read_ack },
+        RealEnum { key: "RegistrationResponse", parse: parse_dbg::<sequences::RegistrationResponse>, parse_quiet: parse_q::<sequences::RegistrationResponse>, read: read_dbg::<sequences::RegistrationResponse> },
+        RealEnum { key: "ReadCardResponse", parse: parse_dbg::<sequences::ReadCardResponse>, parse_quiet: parse_q::<sequences::ReadCardResponse>, read: read_dbg::<sequences::ReadCardResponse> },
+        RealEnum { key: "InitializationResponse", parse: parse_dbg::<sequences::InitializationResponse>, parse_quiet: parse_q::<sequences::InitializationResponse>, read: read_dbg::<sequences::InitializationResponse> },
+        RealEnum { key: "SetTerminalIdResponse", parse: parse_dbg::<sequences::SetTerminalIdResponse>, parse_quiet: parse_q::<sequences::SetTerminalIdResponse>, read: read_dbg::<sequences::SetTerminalIdResponse> },
+        RealEnum { key: "ResetTerminalResponse", parse: parse_dbg::<sequences::ResetTerminalResponse>, parse_quiet: parse_q::<sequences::ResetTerminalResponse>, read: read_dbg::<sequences::ResetTerminalResponse> },
+        RealEnum { key: "DiagnosisResponse", parse: parse_dbg::<sequences::DiagnosisResponse>, parse_quiet: parse_q::<sequences::DiagnosisResponse>, read: read_dbg::<sequences::DiagnosisResponse> },
+        RealEnum { key: "EndOfDayResponse", parse: parse_dbg::<sequences::EndOfDayResponse>, parse_quiet: parse_q::<sequences::EndOfDayResponse>, read: read_dbg::<sequences::EndOfDayResponse> },
+        RealEnum { key: "AuthorizationResponse", parse: parse_dbg::<sequences::AuthorizationResponse>, parse_quiet: parse_q::<sequences::AuthorizationResponse>, read: read_dbg::<sequences::AuthorizationResponse> },
+        RealEnum { key: "PartialReversalResponse", parse: parse_dbg::<sequences::PartialReversalResponse>, parse_quiet: parse_q::<sequences::PartialReversalResponse>, read: read_dbg::<sequences::PartialReversalResponse> },
+        RealEnum { key: "PrintSystemConfigurationResponse", parse: parse_dbg::<sequences::PrintSystemConfigurationResponse>, parse_quiet: parse_q::<sequences::PrintSystemConfigurationResponse>, read: read_dbg::<sequences::PrintSystemConfigurationResponse> },
+        RealEnum { key: "SelectLanguageResponse", parse: parse_dbg::<sequences::SelectLanguageResponse>, parse_quiet: parse_q::<sequences::SelectLanguageResponse>, read: read_dbg::<sequences::SelectLanguageResponse> },
+        RealEnum { key: "StatusEnquiryResponse", parse: parse_dbg::<sequences::StatusEnquiryResponse>, parse_quiet: parse_q::<sequences::StatusEnquiryResponse>, read: read_dbg::<sequences::StatusEnquiryResponse> },
+        RealEnum { key: "GetSystemInfoResponse", parse: parse_dbg::<feig::sequences::GetSystemInfoResponse>, parse_quiet: parse_q::<feig::sequences::GetSystemInfoResponse>, read: read_dbg::<feig::sequences::GetSystemInfoResponse> },
+        RealEnum { key: "WriteFileResponse", parse: parse_dbg::<feig::sequences::WriteFileResponse>, parse_quiet: parse_q::<feig::sequences::WriteFileResponse>, read: read_dbg::<feig::sequences::WriteFileResponse> },
+        RealEnum { key: "FactoryResetResponse", parse: parse_dbg::<feig::sequences::FactoryResetResponse>, parse_quiet: parse_q::<feig::sequences::FactoryResetResponse>, read: read_dbg::<feig::sequences::FactoryResetResponse> },
+        RealEnum { key: "ChangeHostConfigurationResponse", parse: parse_dbg::<feig::sequences::ChangeHostConfigurationResponse>, parse_quiet: parse_q::<feig::sequences::ChangeHostConfigurationResponse>, read: read_dbg::<feig::sequences::ChangeHostConfigurationResponse> },
     ]
 }
 
